@@ -431,7 +431,12 @@ class Ctx:
         with ThreadPoolExecutor(max_workers=NCPU) as ex:
             f = None
             n_in = 0
-            for e in events:
+            def with_side(it):
+                for x in it:
+                    yield x
+                    while SIDE:
+                        yield SIDE.pop(0)
+            for e in with_side(events):
                 if f is None:
                     fn = os.path.join(wd, f"shard{len(files)}.ndjson")
                     f = open(fn, "w")
@@ -535,6 +540,11 @@ class Ctx:
         self.traces += n[0]
         self.note(f"{label}: TLC explored {r['distinct']} states / {r['generated']} transitions of {module} "
                   f"({cfg}); {n[0]} emitted vectors replayed on the code, {n[1]} mismatches")
+        if SIDE:
+            # observations the adapters made on the way (obs.pack after the caller re-used its objects): validated as recorded calls
+            side = list(SIDE)
+            del SIDE[:]
+            self.validate_events(iter(side), label + "-side", classify)
         return r
 
 
@@ -786,11 +796,57 @@ def enum_arg(cls, v, *key):
     return cls(v)
 
 
+SIDE = []
+
+
+def side_event(op, a, o):
+    """A further recorded call observed inside an adapter (validated by TLC like every recorded call): used for the universal
+    law 'pack() is the specification's encoding of what the object's own getters report', observed after the caller went on
+    using ITS objects (configuration records, headers) for something else."""
+    SIDE.append({"op": op, "a": a, "o": o, "side": 1})
+
+
+def side_pack(label, proj, obj):
+    """Record the obs.pack side event for obj (never raises)."""
+    try:
+        v = proj(obj)
+    except Exception:  # noqa
+        return
+    try:
+        o = {"octets": octs(obj.pack())}
+    except Exception as e:  # noqa
+        o = {"exc": family(e)}
+    side_event("obs.pack", {"cls": label, "v": v}, o)
+
+
+def assign_grown(obj, attr, data):
+    """Assign `data` to obj.attr the way an application that owns one growing buffer does it: a bytearray holding the first
+    part is assigned, the SAME object is then extended in place to the full content and assigned again (so that lengths
+    follow).  For data of even length the plain assignment of a bytes object is used.  Either way the attribute ends up
+    holding exactly `data`."""
+    data = bytes(data)
+    if len(data) % 2 == 0 or len(data) < 1:
+        setattr(obj, attr, data)
+        return
+    buf = bytearray(data[:len(data) // 2])
+    setattr(obj, attr, buf)
+    buf.extend(data[len(data) // 2:])
+    setattr(obj, attr, buf)
+
+
 def owned(packfn):
     """pack() of the object under test, with the caller doing what callers do with the returned buffer: it is extended and
     overwritten in place (e.g. to append a payload), then the object is packed again.  The second result is returned; it is
     the first one unless the object handed out a buffer it still uses itself."""
-    first = packfn()
+    try:
+        first = packfn()
+    except Exception:
+        # a refusal must be repeatable: the same call on the unchanged object is refused again (not "already checked")
+        try:
+            again = packfn()
+        except Exception:
+            raise
+        return bytearray(b"\xee\xee refused once, then packed: " + bytes(again))
     keep = bytes(first)
     if isinstance(first, bytearray):
         first.extend(b"\xa5\x5a\xa5")
